@@ -6,7 +6,7 @@ import ast
 import z3
 
 from pyvc import specz3
-from pyvc.sym import (I, B, A, A2, iv, add, sub, lit, fresh, fresh_seq, Seq, Tup, Mat, Row, Obj, FloatV, NONE, NoneV, const_str, const_list, MaskV)
+from pyvc.sym import (I, B, A, A2, iv, add, sub, lit, fresh, fresh_seq, Seq, Tup, Mat, Row, Obj, FloatV, NONE, NoneV, const_str, const_list, MaskV, ZipSeq, MaybeFloat, qforall)
 
 
 def U(msg):
@@ -138,6 +138,8 @@ def np_sum(ex, e, st):
         v = v[1]
     if not isinstance(v, Seq) or e.keywords or len(e.args) != 1:
         raise U("sum of this value")
+    if getattr(v, "float_if_empty", False):
+        return MaybeFloat(specz3.ssum(v.arr, iv(v.delta), v.start, add(v.start, v.n)), v.n == 0)
     k = lit(v.n)
     if k is not None and k <= 8:
         tot = iv(0)
@@ -152,6 +154,18 @@ def where_indices(ex, st, m, line):
     given exactly (closed form); otherwise by the universal facts: in range, mask holds at each, strictly increasing, and the mask is
     false before the first, between consecutive and after the last entry."""
     ex.trusted_used.add("numpy.where(mask)[0]: strictly increasing positions where the mask holds, none missing")
+    # the same mask expression denotes the same index array (so ghost code can name the value the program computed)
+    jc = z3.Int("where_canon_j")
+    key = (m.cond(jc).sexpr(), m.n.sexpr() if z3.is_expr(m.n) else str(m.n))
+    memo = ex.__dict__.setdefault("_where_memo", {})
+    if key in memo:
+        return memo[key]
+    out = _where_indices(ex, st, m, line)
+    memo[key] = out
+    return out
+
+
+def _where_indices(ex, st, m, line):
     k = lit(m.n)
     if k is not None and k <= 4:
         conds = [m.cond(j) for j in range(k)]
@@ -169,17 +183,16 @@ def where_indices(ex, st, m, line):
     st.assume(z3.And(out.n >= 0, out.n <= m.n))
     i, p = fresh("q"), fresh("p")
     a = out.arr
-    st.assume(z3.ForAll([i], z3.Implies(z3.And(0 <= i, i < out.n), z3.And(a[i] >= 0, a[i] < m.n, m.cond(a[i]))), patterns=[a[i]]))
+    st.assume(qforall([i], z3.Implies(z3.And(0 <= i, i < out.n), z3.And(a[i] >= 0, a[i] < m.n, m.cond(a[i]))), [a[i]]))
     i2 = fresh("q")
-    st.assume(z3.ForAll([i2], z3.Implies(z3.And(0 <= i2, i2 + 1 < out.n), a[i2] < a[i2 + 1]), patterns=[a[i2]]))
+    st.assume(qforall([i2], z3.Implies(z3.And(0 <= i2, i2 + 1 < out.n), a[i2] < a[i2 + 1]), [a[i2]]))
     # no position is missing: false before the first, between neighbours, after the last
     i3, p3 = fresh("q"), fresh("p")
-    base_arr = m.seq.arr
-    st.assume(z3.ForAll([i3, p3], z3.Implies(z3.And(0 <= i3, i3 + 1 < out.n, a[i3] < p3, p3 < a[i3 + 1]), z3.Not(m.cond(p3))),
-                        patterns=[z3.MultiPattern(a[i3], base_arr[add(m.seq.start, p3)])]))
+    st.assume(qforall([i3, p3], z3.Implies(z3.And(0 <= i3, i3 + 1 < out.n, a[i3] < p3, p3 < a[i3 + 1]), z3.Not(m.cond(p3))),
+                      [(a[i3], m.trigger(p3))]))
     p4 = fresh("p")
-    st.assume(z3.ForAll([p4], z3.Implies(z3.And(0 <= p4, p4 < m.n, z3.Or(out.n == 0, p4 < a[0], p4 > a[out.n - 1])), z3.Not(m.cond(p4))),
-                        patterns=[base_arr[add(m.seq.start, p4)]]))
+    st.assume(qforall([p4], z3.Implies(z3.And(0 <= p4, p4 < m.n, z3.Or(out.n == 0, p4 < a[0], p4 > a[out.n - 1])), z3.Not(m.cond(p4))),
+                      [m.trigger(p4)]))
     return out
 
 
@@ -202,4 +215,23 @@ def mask_select(ex, st, base, m, line):
     out = fresh_seq("sel", "nd", "int", n=idx.n, dtype=base.dtype)
     for j in range(k):
         st.assume(z3.Implies(j < idx.n, out.arr[j] == base.at(idx.arr[j])))
+    return out
+
+
+@lib("array")
+def np_array(ex, e, st):
+    """numpy.array(list of ints[, dtype=int]): a 1-D int array with the same entries.  WITHOUT a dtype, array([]) is float64: every scalar
+    derived from it (sum, %) is then a float and cannot be used as an index - the dtype is part of the symbolic value."""
+    ex.trusted_used.add("numpy.array(list[, dtype]): same entries; dtype float64 for an empty list unless dtype is given")
+    v = ex.ev(e.args[0], st)
+    if isinstance(v, tuple) and v[0] == "mapped":
+        v = v[1]
+    kw = {k.arg: k.value for k in e.keywords}
+    if isinstance(v, Tup):
+        raise U("array() of a heterogeneous list")
+    if not isinstance(v, Seq):
+        raise U("array() of a non-list")
+    out = Seq("nd", v.elem, v.arr, v.n, v.start, v.delta, dtype="int")
+    if "dtype" not in kw:
+        out.float_if_empty = True
     return out
